@@ -125,6 +125,12 @@ CHECKS.update({
         "Trusted: the exception-origin classification by traceback frames. Strings longer than the bound are covered only through the corruption corpus.",
         "DESIGN.md 3.5, 4 C17",
     ),
+    "C12": (
+        "bounded-exhaustive enumeration of query pipelines x query windows on seeded real stores, whole-store before/after comparison",
+        "Every pipeline of depth <=2 of built-ins over query_bucket(b1|b2) (15 unary forms incl. all in-place annotators and the data-clearing period_union, 4 binary forms, aliasing forms), each also with a raising statement appended (unknown function / wrong type / unknown bucket / undefined variable), x 12 query windows (zero-width, empty, sub-ms shifted, tz-offset forms) is run on each real backend; the complete store (every event of every bucket + metadata) is dumped before and after every query; query_bucket and query_bucket_eventcount are compared with direct windowed reads for every window and bucket.",
+        "Trusted: the dump through the public API (C01/C02 check it). Programs beyond depth 2 (thorough 3) are not explored.",
+        "DESIGN.md 3.5, 4 C12",
+    ),
 })
 
 NOT_YET = {}
